@@ -15,7 +15,8 @@ THOROUGH = dict(worlds=256, runs=6000, seconds=28)
 
 BBTYPES = {"bbA": [["a", "b"], ["y"]], "bbB": [["d"], ["q", "qn"]], "bbC": [["p"], ["z"]],
            "bbD": [["a", "y"], ["y"]],     # malformed on purpose: pin y listed in both directions (an invalid argument)
-           "bbE": [["p"], ["k.z"]]}        # a pin named like the pin of a nested instance (what a child exporting one needs)
+           "bbE": [["p"], ["k.z"]],        # a pin named like the pin of a nested instance (what a child exporting one needs)
+           "bbF": [["p"], ["k.p"]]}        # ... here the exported node is the nested instance's INPUT pin
 
 CHILDREN = {
     "ch1": {"name": "ch1", "bbs": {}, "nodes": {
@@ -34,16 +35,19 @@ CHILDREN = {
     "ch7": {"name": "ch7", "bbs": {"k": ["bbC", ["p"], ["z"]]}, "nodes": {
         "p": ["input", [], False], "k.p": ["bb_input", ["p"], False], "k.z": ["bb_output", [], True],
         "w": ["buf", ["k.z"], False]}},
+    # a child whose output is the input pin of a nested blackbox
+    "ch8": {"name": "ch8", "bbs": {"k": ["bbC", ["p"], ["z"]]}, "nodes": {
+        "p": ["input", [], False], "k.p": ["bb_input", ["p"], True], "k.z": ["bb_output", [], False]}},
     # node names that resemble instance names (first letters shared with "u", "m", "r_", "v")
     "ch6": {"name": "ch6", "bbs": {}, "nodes": {
         "u1": ["input", [], False], "m": ["not", ["u1"], False], "r_y": ["and", ["u1", "m"], True],
         "v": ["buf", ["m"], True]}},
 }
 CHILD_NODE_NAMES = sorted({n for ch in CHILDREN.values() for n in ch["nodes"] if "." not in n})
-CHILD_FOR_TYPE = {"bbA": ["ch1", "ch5", "ch4"], "bbB": ["ch2"], "bbC": ["ch3"], "bbD": ["ch1"], "bbE": ["ch7"]}
+CHILD_FOR_TYPE = {"bbA": ["ch1", "ch5", "ch4"], "bbB": ["ch2"], "bbC": ["ch3"], "bbD": ["ch1"], "bbE": ["ch7"], "bbF": ["ch8"]}
 
 BASE_NAMES = ["a", "b", "c", "d", "e", "f", "g", "h"]
-ODD_NAMES = ["3x", "u.y", "u.a", "u_a", "u_b", "u_y", "v_q", "v_b", "u_k", "zz"]
+ODD_NAMES = ["3x", "u.y", "u.a", "u_a", "u_b", "u_y", "v_q", "v_b", "u_k", "zz", ""]
 INSTS = ["u", "v", "u_k", "m", "r", "t", "3i"]
 TYPES = ["and", "nand", "or", "nor", "xor", "xnor", "buf", "not", "input", "0", "1", "x"]
 
@@ -383,12 +387,13 @@ def classify_illegal(op, before, bbs_before):
             return "type"
         if not uid and n in nodes:
             return "duplicate"
-        if n and n[0] in "0123456789":
+        if not n or n[0] in "0123456789":
             return "name"
         return None
     if k == "connect":
-        us, vs = _aslist(op[1]), _aslist(op[2])
-        if not us or not vs:
+        # an empty name stands for "no net" (the library treats every falsy entry like None): nothing to connect
+        us, vs = [x for x in _aslist(op[1]) if x], [x for x in _aslist(op[2]) if x]
+        if not us or not vs or len(us) != len(_aslist(op[1])) or len(vs) != len(_aslist(op[2])):
             return None
         return conn_bad(us, vs)
     if k == "add_blackbox":
@@ -399,7 +404,7 @@ def classify_illegal(op, before, bbs_before):
         for p, net in (conns or {}).items():
             if p not in ins and p not in outs:
                 return "connection to an undefined pin"
-            if net not in nodes and not (isinstance(net, str) and net.startswith(inst + ".")):
+            if net and net not in nodes and not (isinstance(net, str) and net.startswith(inst + ".")):
                 return f"connection to missing node {net}"
         return None
     if k == "add_subcircuit" and op[1] != "self":
@@ -409,7 +414,7 @@ def classify_illegal(op, before, bbs_before):
         for p, net in (conns or {}).items():
             if p not in io:
                 return "connection key is not child io"
-            if net not in nodes and not (isinstance(net, str) and net.startswith(inst + "_")):
+            if net and net not in nodes and not (isinstance(net, str) and net.startswith(inst + "_")):
                 return f"connection to missing node {net}"
         for n in ch["nodes"]:
             if f"{inst}_{n}" in nodes:
